@@ -324,7 +324,7 @@ Lemma mount_one_wp c m x ld ks L s (Q : ldefs -> mst -> Prop) (E : rclass -> mst
   K ks L s -> ldok m ks ld -> lm_get m (l_name x) = Some x ->
   (forall ld' ops ks1 ksc1 s',
      itrace ks ks (layer_items c m x) ops ks1 ksc1 TDone -> K ks1 (L ++ ops) s' ->
-     ldok m ks1 ld' -> Q ld' s') ->
+     ldok m ks1 ld' -> expand_config_mounts c m x <> None -> Q ld' s') ->
   (forall rc ops ks1 st s',
      st <> TDone -> (forall rest, ltrace ks (layer_items c m x :: rest) ops ks1 st) ->
      K ks1 (L ++ ops) s' -> (st = TFailed -> rc = RFail) -> E rc s') ->
@@ -387,7 +387,7 @@ Proof.
             K ks0 L0 s0 ->
             (forall ld' ops ks1 ksc1 s',
                itrace ks0 ks (imp_items c m x) ops ks1 ksc1 TDone -> K ks1 (L0 ++ ops) s' ->
-               ldok m ks1 ld' -> Q ld' s') ->
+               ldok m ks1 ld' -> expand_config_mounts c m x <> None -> Q ld' s') ->
             (forall rc ops ks1 ksc1 st s',
                itrace ks0 ks (imp_items c m x) ops ks1 ksc1 st -> K ks1 (L0 ++ ops) s' ->
                (st = TFailed -> rc = RFail) -> E rc s') ->
@@ -421,7 +421,7 @@ Proof.
     apply wp_bind, wp_get_fs.
     destruct (msim_get_some _ _ _ _ Hm1 Hx) as (l1 & El1 & Sl1). rewrite El1. cbv zeta.
     apply wp_bind. apply wp_guard; [intros _|intros _; apply Hst1].
-    apply wp_ret. eapply HQ0; [exact Ht|exact HK1|].
+    apply wp_ret. eapply HQ0; [exact Ht|exact HK1| |discriminate].
     split; [|exact Hp1]. cbn [set_layer ld_map].
     apply msim_set; [exact Hm1|]. exists l1. split.
     - assert (Hn1 : l_name (find_layerstate c (w_fs (s_w s1)) ld1 l1) = l_name l1).
@@ -433,7 +433,7 @@ Proof.
   - (* not derived: no overlay item *)
     apply wp_bind, wp_ret. cbn [app] in HQ, HE'.
     apply (Hrest ks L s HK).
-    + intros ld' ops ks1 ksc1 s' Ht HK1 Hok. eapply HQ; eassumption.
+    + intros ld' ops ks1 ksc1 s' Ht HK1 Hok Hex. eapply HQ; eassumption.
     + intros rc ops ks1 ksc1 st s' Ht HK1 Hf. eapply HE'; eauto.
   - set (ovl := MkItem overlay (build_path c x) overlay
                   (match lm_get m (b0c :: b0r) with Some bl => ovl_data c bl x | None => [] end) false) in *.
@@ -444,7 +444,7 @@ Proof.
     apply wp_bind.
     destruct (get_mount (pr_mounts (ld_probe ld)) (build_path c x)) as [mnt|] eqn:Eg.
     + apply wp_ret. apply (Hrest ks L s HK).
-      * intros ld' ops ks1 ksc1 s' Ht HK1 Hok. eapply HQ; [|exact HK1|exact Hok].
+      * intros ld' ops ks1 ksc1 s' Ht HK1 Hok Hex. eapply HQ; [|exact HK1|exact Hok|exact Hex].
         apply IT_skip; [exact Hc|exact Ht].
       * intros rc ops ks1 ksc1 st s' Ht HK1 Hf. eapply HE'; [|exact HK1|exact Hf|auto].
         apply IT_skip; [exact Hc|exact Ht].
@@ -458,7 +458,8 @@ Proof.
       apply (fs_mount_wp ovl ks L s); [exact HK| | |].
       * intros f ks1 s1 Ek HK1.
         apply (Hrest ks1 (L ++ mops ovl true) s1 HK1).
-        -- intros ld' ops ks2 ksc2 s' Ht HK2 Hok. eapply HQ; [|rewrite app_assoc; exact HK2|exact Hok].
+        -- intros ld' ops ks2 ksc2 s' Ht HK2 Hok Hex.
+           eapply HQ; [|rewrite app_assoc; exact HK2|exact Hok|exact Hex].
            eapply IT_mount; [exact Hc|exact Ek|exact Ht].
         -- intros rc ops ks2 ksc2 st s' Ht HK2 Hf.
            eapply HE'; [|rewrite app_assoc; exact HK2|exact Hf|auto].
@@ -480,7 +481,7 @@ Lemma mount_fold_wp c m (xs : list layer) : forall (names : list layer) ld ks L 
   K ks L s -> ldok m ks ld ->
   (forall ld' ops ks1 s',
      ltrace ks (map (layer_items c m) xs) ops ks1 TDone -> K ks1 (L ++ ops) s' ->
-     ldok m ks1 ld' -> Q ld' s') ->
+     ldok m ks1 ld' -> Forall (fun x => expand_config_mounts c m x <> None) xs -> Q ld' s') ->
   (forall rc ops ks1 st s',
      st <> TDone -> ltrace ks (map (layer_items c m) xs) ops ks1 st ->
      K ks1 (L ++ ops) s' -> (st = TFailed -> rc = RFail) -> E rc s') ->
@@ -488,13 +489,14 @@ Lemma mount_fold_wp c m (xs : list layer) : forall (names : list layer) ld ks L 
 Proof.
   induction xs as [|x r IH]; intros names ld ks L s Q E Hn Hx HK Hok HQ HE;
     destruct names as [|y names]; try discriminate Hn; cbn [foldM map].
-  - apply wp_ret. eapply HQ; [constructor| |exact Hok]. now rewrite app_nil_r.
+  - apply wp_ret. eapply HQ; [constructor| |exact Hok|constructor]. now rewrite app_nil_r.
   - cbn [map] in Hn. injection Hn as Hy Hn. rewrite Hy.
     inversion Hx as [|? ? Hx1 Hx2]; subst.
     apply wp_bind. eapply (mount_one_wp c m x); [exact HK|exact Hok|exact Hx1| |].
-    + intros ld1 ops ks1 ksc1 s1 Ht HK1 Hok1.
+    + intros ld1 ops ks1 ksc1 s1 Ht HK1 Hok1 Hex1.
       eapply (IH names); [exact Hn|exact Hx2|exact HK1|exact Hok1| |].
-      * intros ld' ops2 ks2 s' Hl HK2 Hok2. eapply HQ; [|rewrite app_assoc; exact HK2|exact Hok2].
+      * intros ld' ops2 ks2 s' Hl HK2 Hok2 Hex2.
+        eapply HQ; [|rewrite app_assoc; exact HK2|exact Hok2|constructor; assumption].
         eapply LT_layer; eassumption.
       * intros rc ops2 ks2 st s' Hst Hl HK2 Hf.
         eapply HE; [exact Hst| |rewrite app_assoc; exact HK2|exact Hf].
@@ -519,13 +521,17 @@ Theorem run_mount_trace c um n (w : LC.wobs) :
   let '(o, st) := run e c um (CMount n) (LC.world_of w) in
   exists stat,
     ltrace (LC.wo_ks w) (chain_items c (LC.wo_fs w) n) (LCS.syscalls (rev (s_log st))) (w_ks (s_w st)) stat
-    /\ (rclass_of o = ROk -> stat = TDone)
+    /\ (rclass_of o = ROk ->
+        stat = TDone
+        /\ Forall (fun x => expand_config_mounts c (LCS.layers_on_disk c (LC.wo_fs w)) x <> None)
+                  (LCS.chain c (LC.wo_fs w) n))
     /\ (stat = TFailed -> rclass_of o = RFail).
 Proof.
   set (s0 := MkSt (LC.world_of w) 0 []).
   set (m := LCS.layers_on_disk c (LC.wo_fs w)).
   assert (G : wp (run_command e c um (CMount n))
-                 (fun _ st => ltrace (LC.wo_ks w) (chain_items c (LC.wo_fs w) n) (sys st) (kst st) TDone)
+                 (fun _ st => ltrace (LC.wo_ks w) (chain_items c (LC.wo_fs w) n) (sys st) (kst st) TDone
+                    /\ Forall (fun x => expand_config_mounts c m x <> None) (LCS.chain c (LC.wo_fs w) n))
                  (fun rc st => exists stat, stat <> TDone
                     /\ ltrace (LC.wo_ks w) (chain_items c (LC.wo_fs w) n) (sys st) (kst st) stat
                     /\ (stat = TFailed -> rc = RFail)) s0).
@@ -551,11 +557,15 @@ Proof.
                         (match ancestors_and_self (S (length (ld_map ld))) m n [] with
                          | Some l0 => l0 | None => [] end)).
     { unfold chain_items, LCS.chain. fold m. now rewrite (msim_length _ _ Hm). }
+    assert (Hcc : LCS.chain c (LC.wo_fs w) n
+                  = match ancestors_and_self (S (length (ld_map ld))) m n [] with
+                    | Some l0 => l0 | None => [] end).
+    { unfold LCS.chain. fold m. now rewrite (msim_length _ _ Hm). }
     destruct (ancestors_and_self (S (length (ld_map ld))) (ld_map ld) n []) as [chain|] eqn:Ech.
     2:{ apply wp_diverge. destruct (ancestors_and_self (S (length (ld_map ld))) m n []); [contradiction|].
         now apply Hstop. }
     destruct (ancestors_and_self (S (length (ld_map ld))) m n []) as [ch|] eqn:Ech0; [|contradiction].
-    rewrite Hci in Hstop |- *. clear Hci.
+    rewrite Hci in Hstop |- *. rewrite Hcc. clear Hci Hcc.
     assert (Hget : Forall (fun x => lm_get m (l_name x) = Some x) ch).
     { eapply ancestors_get; [|exact Ech0]. constructor. }
     assert (Hnames : map l_name chain = map l_name ch).
@@ -568,7 +578,7 @@ Proof.
     apply wp_bind.
     eapply (mount_fold_wp c m ch chain); [exact Hnames|exact Hget|exact HK1|split; assumption| |].
     2:{ intros rc ops ks1 st s' Hst Hl [H1 H2] Hf. exists st. rewrite H1, H2. auto. }
-    intros ld2 ops ks2 s2 Hl HK2 Hok2. cbn [app] in HK2.
+    intros ld2 ops ks2 s2 Hl HK2 Hok2 Hex2. cbn [app] in HK2.
     apply wp_bind.
     assert (Hfin : forall s', K ks2 ops s' ->
                ltrace (LC.wo_ks w) (map (layer_items c m) ch) (sys s') (kst s') TDone).
@@ -577,14 +587,14 @@ Proof.
     - apply kq_mapM_. intros x. apply kq_make_export_symlinks.
     - exact HK2.
     - intros s3. unfold wp. destruct (mapM_ _ chain s3) as [[[]| | | |] ?]; exact I.
-    - intros _ s3 _ HK3. apply wp_ret, wp_ret. now apply Hfin.
+    - intros _ s3 _ HK3. apply wp_ret, wp_ret. split; [now apply Hfin|exact Hex2].
     - intros rc s3 [H1 H2]. exists TStop. rewrite H1, H2. repeat split; [discriminate| |discriminate].
       eapply ltrace_done_stop; [exact Hl|reflexivity]. }
   unfold run. fold s0.
   destruct (run_command e c um (CMount n) s0) as [o st] eqn:Er.
   pose proof (wp_elim _ _ _ _ _ _ G Er) as H.
   destruct o as [a| | | |]; cbn [rclass_of].
-  - exists TDone. split; [exact H|]. split; [reflexivity|discriminate].
+  - destruct H as [H Hex]. exists TDone. split; [exact H|]. split; [intros _; split; [reflexivity|exact Hex]|discriminate].
   - destruct H as (stat & H1 & H2 & H3). exists stat. split; [exact H2|]. split; [discriminate|exact H3].
   - destruct H as (stat & H1 & H2 & H3). exists stat. split; [exact H2|]. split; [discriminate|exact H3].
   - destruct H as (stat & H1 & H2 & H3). exists stat. split; [exact H2|]. split; [discriminate|exact H3].
